@@ -36,6 +36,15 @@ def step (line : String) : String :=
       else if op = "lt" then match zs with
         | [a, b] => if elLt a b then "ok 1" else "ok 0"
         | _ => "bad-op"
+      else if op = "le" then match zs with
+        | [a, b] => if elLeT a b then "ok 1" else "ok 0"
+        | _ => "bad-op"
+      else if op = "gt" then match zs with
+        | [a, b] => if elGtT a b then "ok 1" else "ok 0"
+        | _ => "bad-op"
+      else if op = "ge" then match zs with
+        | [a, b] => if elGeT a b then "ok 1" else "ok 0"
+        | _ => "bad-op"
       else if op = "formula" then
         ("ok " ++ " ".intercalate ((formula zs).map fun p => s!"{p.1}:{p.2}")).trimAsciiEnd.toString
       else "bad-op"
